@@ -125,6 +125,9 @@ def legalise(case):
             continue
         elif kind == 'trim':
             pass
+        elif kind == 'recalc':
+            if not has_wb and not op.get('any_origin'):
+                continue
         touched |= st.touch_set(op)
         ops.append(op)
     case['ops'] = ops
@@ -233,7 +236,14 @@ class HistoryRun:
                     expected[i] = ('err', str(exc)[:80])
             elif op['op'] == 'set':
                 overrides = dict(overrides)
-                overrides[op['a']] = op['v']
+                if op.get('unset'):
+                    overrides.pop(op['a'], None)     # set_value(formula cell, None): calculate it again
+                else:
+                    overrides[op['a']] = op['v']
+            elif op['op'] == 'recalc':
+                # recalculate(): every formula is calculated again, assigned values are gone
+                overrides = {a: v for a, v in overrides.items()
+                             if not wbgen.is_formula_cell(self.st.dag.cell[a])}
             elif op['op'] == 'restart':
                 universe &= self.st.dag.closure(touched)
             touched |= self.st.touch_set(op)
@@ -479,13 +489,30 @@ class HistoryRun:
             out = driver.step(op)
             self.count('sets')
             if kind == 'set':
-                self.overrides[a] = op['v']
+                if op.get('unset'):
+                    self.overrides.pop(a, None)
+                    self.count('fault:assigned-formula-cell-set-back-to-its-formula')
+                else:
+                    self.overrides[a] = op['v']
+                    if wbgen.is_formula_cell(self.st.dag.cell[a]):
+                        self.count('fault:value-assigned-over-a-formula')
                 self.writes.append((i, a, wkind))
             self.events.append((i, kind, a, values.jsonable(op.get('v')), out.get('exc'),
                                 cache_digest(driver.model)))
             self.sig_items.append((kind[0], cache_digest(driver.model)))
             if 'exc' in out:
                 self.violate('exception', i, op, 'set_value returns', out, exc=out['exc'])
+        elif kind == 'recalc':
+            out = driver.step(op)
+            self.overrides = {a: v for a, v in self.overrides.items()
+                              if not wbgen.is_formula_cell(self.st.dag.cell[a])}
+            self.count('recalculates')
+            self.events.append((i, 'recalc', out.get('exc'), cache_digest(driver.model)))
+            self.sig_items.append(('R',))
+            if 'exc' in out:
+                # (a model with a cell that cannot be calculated: what recalculate() does with
+                # it is C09's subject)
+                self.count('recalculate-raised')
         elif kind == 'poke':
             # evaluate a cell that cannot be evaluated (a reference that cannot be resolved):
             # whatever it raises is the fault, the model has to stay usable
